@@ -129,6 +129,27 @@ def step_contract(a0: int, a1: int, a2: int, M: int, reset_at: int, k: int = 2, 
     check_step(env, 0, 0, M, "first step of the next episode", check_obs)
 
 
+def scheduled_contract(which: int, n_resets: int):
+    """Episode-scheduled scenario directories: reset stays total and keeps the contract over many consecutive
+    episodes (the schedule wraps around several times), each followed by a step."""
+    from primaite.session.environment import PrimaiteGymEnv
+    from harness.c04_isolation import SCHEDULED
+
+    assume(all_of(rng(which, 0, len(SCHEDULED) - 1), rng(n_resets, 1, 11)))
+    path = pick(SCHEDULED, which)
+    n = pick_int(n_resets, 1, 11)
+    with concrete():
+        quiet()
+        try:
+            env = PrimaiteGymEnv(env_config=path)
+        except Exception as e:
+            fail(f"constructing the environment for {path} raised {type(e).__name__}: {str(e)[:200]}")
+        for k in range(1, n + 1):
+            check_reset(env, f"{path.split('/')[-1]} episode {k}", check_obs=True)
+            check_step(env, 0, 0, env.game.options.max_episode_length, f"{path.split('/')[-1]} episode {k} step 0", check_obs=True)
+    cover("scheduled")
+
+
 SHIPPED = [
     "/repo/src/primaite/config/_package_data/data_manipulation.yaml",
     "/repo/tests/assets/configs/basic_switched_network.yaml",
@@ -142,6 +163,13 @@ SHIPPED = [
 ]
 
 HARNESSES = {
+    "scheduled_contract": {
+        "fn": scheduled_contract,
+        "quick": [{"fixed": {"which": w}, "timeout": 280} for w in range(3)],
+        "thorough": [{"fixed": {"which": w}, "timeout": 900} for w in range(3)],
+        "cover": ["scheduled"],
+        "bounds": "the shipped episode-scheduled scenario directories, 1..11 consecutive episodes (the schedule wraps around up to 5 times), one step each",
+    },
     "step_contract": {
         "fn": step_contract,
         "quick": [
